@@ -2,6 +2,8 @@ package main
 
 import (
 	"fmt"
+	"io"
+	"log/slog"
 	"os"
 )
 
@@ -11,6 +13,9 @@ func main() {
 	if len(os.Args) < 2 {
 		fmt.Fprintln(os.Stderr, "usage: vh <cmd> args...")
 		os.Exit(2)
+	}
+	if os.Getenv("VERIF_LOG") == "" { // the code under test logs every rejected packet
+		slog.SetDefault(slog.New(slog.NewTextHandler(io.Discard, nil)))
 	}
 	f, ok := cmds[os.Args[1]]
 	if !ok {
